@@ -20,11 +20,13 @@ Definition C05_full : Prop := full_for gen_cfg.
     true since 693497d / 9e08992); operands of arithmetic are closed; operands of & | are closed or any forward boolean
     operator; an aliased Column or F.when(...) as a bound of between only if between unaliases its bounds
     (c_between_unalias: true since 27d8aae); endswith only if the emitted function exists (ENDS_WITH since ba0d1e8);
-    excluded: getItem(<Column>) (known finding), cast(ty).cast(ty) *)
+    excluded: getItem(<Column>) (known finding), cast(ty).cast(ty).  The value part holds on the rows of [agree]: where
+    DuckDB's and Spark's primitives coincide (not: substring position 0, a fractional value cast to an integer type --
+    both known findings, refuted in C05_refuted.v) *)
 Theorem C05_partial :
   forall t, in_class gen_cfg t = true ->
     exists e, reparse (print (build gen_cfg t)) = ROk e [] /\ strip e = denote t /\ known e = true /\
-              forall en, udom en t = true -> seval en e = ueval en t.
+              forall en, udom en t = true -> agree en t = true -> seval en e = ueval en t.
 Proof. exact (c05_value gen_cfg gen_cfg_ok). Qed.
 Print Assumptions C05_partial.
 
